@@ -39,6 +39,10 @@ def _make_base():
         import tempfile
         top = tempfile.gettempdir()
     top = os.path.realpath(top)
+    run_base = os.environ.get("VERIF_SCRATCH_BASE")
+    if run_base and os.path.isdir(run_base):
+        # one directory per check invocation (removed by the invoking process at the end); workers get a sub-directory
+        top = os.path.realpath(run_base)
     d = os.path.join(top, f"ovsim-{os.getpid()}")
     with seam.passthrough():
         if os.path.isdir(d):
